@@ -12,7 +12,7 @@ INITIALS = [
     FUNDED,
     FUNDED + (('submit', '1', 'A', 5), ('tick', 2)),                      # long 5 A
     (('acct_sub', '5000'), ('create', '2'), ('pf_sub', '2', '99.99'),      # short 8 B, long 30 A,
-     ('submit', '2', 'B', -8), ('submit', '2', 'A', 30), ('tick', 2)),     # negative cash
+     ('submit', '2', 'Bq', -8), ('submit', '2', 'A', 30), ('tick', 2)),     # negative cash
 ]
 
 
@@ -21,8 +21,13 @@ def alphabet(m):
            ('create', '1'), ('create', '2')]
     for p in ('1', '2'):
         evs += [('pf_sub', p, '400'), ('pf_sub', p, '99.995'), ('pf_wd', p, '50.25'), ('pf_wd', p, '16.667')]
+    # transfer the master balance as quoted (rounded to cents) - offered only when the true balance has a
+    # sub-cent residue of at least 0.001, so that 'exceeds the balance' is not a matter of float noise
+    from fractions import Fraction
+    if abs(Fraction(repr(m.quoted_master())) - m.master) >= Fraction(1, 1000):
+        evs.append(('pf_sub_quoted', '1'))
     for p in ('1', '2'):
-        for a, qs in (('A', (3, -3, 5, -8)), ('B', (5, -8))):
+        for a, qs in (('A', (3, -3, 5, -8)), ('Bq', (5, -8))):
             for q in qs:
                 evs.append(('submit', p, a, q))
     ticks = {m.clock}
